@@ -78,6 +78,9 @@ static void section(Resource &res, int t, char op, bool barrier) {
     // L = a late reader: it issues its request only when the holder's condition for leaving is already met (holdTarget requests
     // parked), so its call is observably later than those requests' parking
     if (op == 'L') { verif::await([] { return hHolding && (hLeaving || parkedCount() >= holdTarget); }); op = 'R'; }
+    // V = a late WRITER (same arrival rule as L): its request reaches the queue around the moment the holder hands over, i.e. when
+    // entries have already been admitted from the front of the queue while others are still waiting in it
+    if (op == 'V') { verif::await([] { return hHolding && (hLeaving || parkedCount() >= holdTarget); }); op = 'W'; }
     char k = (op == 'R' || op == 'r') ? 'R' : 'W';
     std::string ts = std::to_string(t);
     bool hold = op == 'H';
